@@ -295,6 +295,7 @@ func (r *Reader) initFields() error {
 			// Ignore this for avoiding infinite loop of the reference.
 			// The example case where this can occur is when tar contains the root
 			// directory itself (e.g. "./", "/").
+			ent.NumLink++ // "." of the root directory
 			continue
 		}
 		pdir := r.getOrCreateDir(pdirName)
